@@ -232,8 +232,24 @@ def generate(rng, focus, tier="quick"):
                 emit(o)
             return seq[-1]
         if kind in ("clock_regress", "clock_regress_pending"):
-            return {"k": "tick", "back": rng.choice([1, 60, 3600, 7 * 3600, DAY, 3 * DAY, 30 * DAY]),
-                    "stay": rng.random() < 0.5, "fault": kind}
+            stay = rng.random() < 0.5
+            op = {"k": "tick", "back": rng.choice([1, 60, 3600, 7 * 3600, DAY, 3 * DAY, 30 * DAY]),
+                  "stay": stay, "fault": kind}
+            if stay and rng.random() < 0.7:
+                # life goes on on the regressed clock: transfers, orders and small forward steps from there,
+                # so that portfolio clocks lie in the future of the broker clock
+                emit(op)
+                for _ in range(rng.randrange(2, 7)):
+                    r3 = rng.random()
+                    if r3 < 0.4:
+                        emit(order_op())
+                    elif r3 < 0.6:
+                        emit({"k": "psub", "pid": rng.choice(sh["pids"]), "amt": {"v": _amount(rng)}})
+                    else:
+                        emit({"k": "tick", "fwd": rng.choice([0, 1, 60, 3600, 5 * 3600, 17 * 3600, DAY]),
+                              "why": "forward_on_regressed_clock"})
+                return {"k": "tick", "fwd": rng.choice([0, 60, 3600, 6 * 3600, DAY]), "why": "forward_on_regressed_clock"}
+            return op
         raise AssertionError(kind)
 
     while len(ops) < n_ops:
@@ -865,6 +881,8 @@ class Exec(object):
         s, m, ctx = self.s, self.m, self.ctx
         if "back" in op:
             t = m.now - int(op["back"])
+        elif "fwd" in op:
+            t = m.now + int(op["fwd"])
         else:
             t = int(op["t"])
         old_now = m.now
